@@ -26,6 +26,46 @@ def make_replay(prop, rule, lemma, text, args):
         return RP.write_and_run(prop, job.name + "." + ob["name"], hdr, ['"tsgRuleLocalPolynomial.hpp"'], name_map(rule) + text, "  %s(%s);" % (lemma, ", ".join(a)))
     return rp
 
+ANC_H = r'''
+void h_ancestors(void){
+  int a_o = nondet_int(), a_p = nondet_int(); double a_x = nondet_double();
+  __CPROVER_assume((a_o == -1 || a_o >= 4) && a_p >= 0 && a_p < (1 << 30));
+  int ne = evalPWPower_anc_@R@(a_o, a_p, a_x), nd = diffPWPower_anc_@R@(a_o, a_p, a_x);
+  __CPROVER_assert(ne == nd, "C05 L5p value and derivative of the high-order basis use the same ancestors (the clamp by the level and the clamp by the order agree; both use the cubic for the same points)");
+  __CPROVER_assert(nd == -1 || nd >= 1, "C05 L5p the derivative has at least one ancestor node (left_prods[0] exists)");
+  __CPROVER_assert(0, "VACUITY-CANARY");
+}
+'''
+REPLAY_ANC = r'''
+/* On the real library: 1-D local polynomial grids of orders 4..7 and the four rules; differentiate() against central differences of evaluate() away from the kinks. */
+int main_replay(){
+  using namespace TasGrid;
+  int bad = 0;
+  for (auto rule : {rule_localp, rule_semilocalp, rule_localp0, rule_localpb}) for (int order : {4, 5, 6, 7, -1}) {
+    TasmanianSparseGrid g = makeLocalPolynomialGrid(1, 1, 6, order, rule);
+    std::vector<double> p = g.getNeededPoints(), v(p.size());
+    for (size_t i = 0; i < p.size(); i++) v[i] = std::exp(0.7 * p[i]) + std::sin(2.0 * p[i]);
+    g.loadNeededValues(v);
+    double worst = 0; const double h = 1.E-7;
+    for (int k = 0; k < 200; k++) {
+      double x = -0.99 + 1.98 * (k + 0.37) / 200.0;
+      bool near = false; for (double q : p) if (std::abs(q - x) < 10 * h) near = true;
+      if (near) continue;
+      std::vector<double> d, yp, ym; g.differentiate({x}, d); g.evaluate({x + h}, yp); g.evaluate({x - h}, ym);
+      worst = std::max(worst, std::abs(d[0] - (yp[0] - ym[0]) / (2 * h)));
+    }
+    if (!(worst < 1.E-5)) { std::printf("rule %d order %d: differentiate() differs from the central difference of evaluate() by %.3e\n", (int) rule, order, worst); bad++; }
+  }
+  __CPROVER_assert(bad == 0, "C05 differentiate() is the derivative of evaluate() for local polynomial grids of order > 3");
+  return 0;
+}
+'''
+def replay_anc(prop):
+    def rp(job, ob, vals, wd):
+        hdr = "Replay through the public API of the real library.\nproperty %s job %s\nobligation %s: %s\nat %s\ncounterexample of the lemma: order %s point %s" % (prop, job.name, ob["name"], ob["description"], ob["location"], vals.get("a_o"), vals.get("a_p"))
+        return RP.write_and_run(prop, job.name + "." + ob["name"], hdr, ['"TasmanianSparseGrid.hpp"', '<cmath>', '<algorithm>'], REPLAY_ANC, "  main_replay();", lib="sg", timeout=120)
+    return rp
+
 NK = {"localp": 2, "semilocalp": 2, "localp0": 2, "localpb": 2, "pwc": 4}
 
 def jobs(tier, seed, prop):
@@ -72,4 +112,16 @@ def jobs(tier, seed, prop):
                                replay=make_replay(prop, rule, lemma, ltxt, args),
                                label="%s for rule %s, order %d" % ({"delta": "L1/L5 hierarchical delta property", "support": "L4/L6a support radius and pruning test",
                                                                     "nested": "L6b nested support intervals", "affine": "L3 affine reproduction on a dyadic lattice", "diff": "C05 exact finite-difference identity of diffSupport on a dyadic lattice"}[kind], rule, o)))
+    if prop == "C05":
+        for rule in dy:
+            R = X.Rules()
+            ctext, info0 = rulelocal.emit(R, rules=[rule], funcs=["getNumPoints", "getLevel"], minima={"R3-enum-const": 0, "R3-template-call": 0})
+            atext, info = rulelocal.emit_ancestors(R, rule)
+            info["functions"] = info0["functions"] + info["functions"]
+            h = ANC_H.replace("@R@", rule)
+            out.append(Job("basis.ancestors." + rule, ctext + "int tsg_exc;\n" + atext + h, "h_ancestors", timeout=300, backends=[[], ["--sat-solver", "cadical"]],
+                           pre_unwindset={r'intlog2|int2log2': 33, r'int3log3': 22},
+                           functions=["%s:%d %s" % (f["file"], f["line"], f["name"]) for f in info["functions"]], info=info, replay=replay_anc(prop), bounded="point index < 2^30 (int arithmetic of getLevel); every order",
+                           assumed=["only the integer prefix of evalPWPower / diffPWPower is under this lemma; the floating-point products that follow are not (orders 1 and 2 are covered by the exact derivative lemma)"],
+                           label="C05 L5p for every order > 3 (or unbounded) and every point, the derivative of the high-order basis of rule %s is built from the same number of ancestor nodes as its value" % rule))
     return out
